@@ -69,7 +69,20 @@ Proof.
   rewrite app_nil_r. reflexivity.
 Qed.
 
+Lemma wf_short_len : forall {A} (l : list A), (len l <? 65536) = true -> wf_short (len l) = true.
+Proof. intros. unfold wf_short. pose proof (len_nonneg l). generalize dependent (len l). intros. lia. Qed.
+Lemma wf_int_len : forall {A} (l : list A), (len l <? 2147483648) = true -> wf_int (len l) = true.
+Proof. intros. unfold wf_int. pose proof (len_nonneg l). generalize dependent (len l). intros. lia. Qed.
+Lemma wf_int_len_wf : forall {A} (l : list A), wf_int (len l) = true -> (len l <? 2147483648) = true.
+Proof. intros A l. unfold wf_int. generalize (len l). intros. lia. Qed.
+Lemma wf_short_strlen : forall s, wf_string s = true -> wf_short (len s) = true.
+Proof. intros s H. unfold wf_string in H. apply andb_prop in H. apply wf_short_len. tauto. Qed.
+
 Ltac side := solve [assumption | reflexivity
+                    | apply wf_short_len; assumption | apply wf_int_len; assumption
+                    | apply wf_short_strlen; assumption
+                    | apply wf_short_len; unfold wf_sbytes in *; assumption
+                    | apply wf_int_len; unfold wf_lbytes, wf_obytes in *; assumption
                     | cbv beta iota delta [wf_short wf_int wf_sbytes wf_lbytes wf_obytes wf_byte wf_wt] in *;
                       repeat match goal with |- context [len ?l] => pose proof (len_nonneg l); generalize dependent (len l); intros end;
                       lia].
@@ -597,3 +610,4 @@ Proof.
   - step' rt_int. step' rt_string. ecls. step' rt_string. step' rt_string. reflexivity.
   - step' rt_int. step' rt_string. ecls. step' rt_bstring. reflexivity.
 Qed.
+
